@@ -12,6 +12,7 @@ import shutil
 import socket
 import sqlite3
 import tempfile
+import urllib.parse
 
 import common
 from common import Check, sx
@@ -36,6 +37,8 @@ FS = {"content": 0, "missing": 1, "oserror": 2,
       "toolong": 1,       # ENAMETOOLONG: not found
       "rootdir": 0,       # directory mode, existing file below root_dir
       "nopath": 4}        # directory mode, request path that does not translate (".": no access at all)
+CONTAINERS = {"list": list, "tuple": tuple, "frozenset": frozenset, "dict": lambda l: {e: None for e in l},
+              "iter": lambda l: (e for e in l)}
 ACTIONS = ["set_value", "delete_data", "delete_value", "set_json_value_from_request_body",
            "set_text_value_from_request_body"]
 BODY_ACTIONS = ACTIONS[3:]
@@ -120,11 +123,22 @@ def ref_member(entries, client):
 
 
 # ----------------------------------------------------------------------------- real handlers
+def nest(keypath, value):
+    """the data tree that holds value under the colon-separated key (numeric components index a list)"""
+    comps = keypath.split(":")
+    d = value
+    for i in range(len(comps) - 1, -1, -1):
+        comp = comps[i]
+        d = [None] * int(comp) + [d] if (i > 0 and comp.isdigit() and comp.isascii()) else {comp: d}
+    return d
+
+
 class DS:
     """recording data source whose calls can raise"""
 
     def __init__(self, find, getd, sys="sys1"):
         self.find, self.getd, self.sys, self.log = find, getd, sys, []
+        self.keypath = "net:ip"
 
     def find_system(self, key, value):
         self.log.append(("find_system", key, value))
@@ -144,7 +158,7 @@ class DS:
             return g[1]                      # a dict without the key
         if g[0] == "typeerror":
             return g[1]                      # {"net": "text"} / {"net": 5}
-        return {"net": {"ip": g[1]}}
+        return nest(self.keypath, g[1])
 
 
 class FaultyStore:
@@ -245,7 +259,7 @@ def getd_sx(g):
     v = g[1]
     if isinstance(v, str):
         return [3, S(v)]
-    if isinstance(v, (list, tuple, set, dict)):
+    if isinstance(v, (list, tuple, set, frozenset, dict)):
         return [5, [S(e) if isinstance(e, str) else 0 for e in v]] if len(v) else [4]
     return [6] if v else [4]
 
@@ -418,6 +432,54 @@ class C05(Check):
             raise_ = rng.random() < 0.3
             yield self.mk("contains", "random", entries=ents, client=client, **{"raise": raise_},
                           ref=ref_member(ents, client))
+        # ---------------- after the slash: things that look like ANOTHER notation ----------------
+        # dotted-decimal netmasks (contiguous, non-contiguous, host/wildcard masks), hex, octal-looking, floats,
+        # a second slash, a second address, ranges, wildcards, lists in one string ... after IPv4, IPv6 and mapped
+        # addresses; none of them is CIDR notation, so none may admit anybody.  Probe clients lie inside everything
+        # a misreading could admit (same /24, /16, /8, everything; same /64, /32; mapped spellings).
+        suffixes = ["255.255.255.0", "255.255.0.0", "255.0.0.0", "255.255.255.255", "0.0.0.0", "255.255.255.128",
+                    "255.0.255.0", "128.0.0.1", "0.255.0.0", "255.255.0.255", "0.0.0.255", "0.0.255.255", "0.255.255.255",
+                    "255.255.255", "255.255.255.0.0", "0x18", "0X18", "18h", "0b11000", "0o30", "24.0", "24.", ".24",
+                    "2.4e1", "1e1", "24/24", "/24", "24/", "24 ", " 24", "\t24", "24\n", "+24", "-24", "-0", "24,16",
+                    "192.168.77.255", "192.168.77.0/24", "ffff:ff00::", "::ffff:ffff:ff00", "2001:db8::", "twenty-four",
+                    "XXIV", "24%", "24%eth0", "*", "24-32", "&24", "024", "0024", "000", "032", "0128"]
+        abases = [("192.168.77.0", ["192.168.77.129", "192.168.1.1", "192.9.9.9", "1.2.3.4", "::ffff:192.168.77.129"]),
+                  ("10.1.2.0", ["10.1.2.3", "10.1.9.9", "10.200.1.1", "::ffff:10.1.9.9", "99.1.2.3"]),
+                  ("2001:db8:1:2::", ["2001:db8:1:2::5", "2001:db8:9::1", "2001::1", "192.168.77.129"]),
+                  ("::ffff:192.168.77.0", ["192.168.77.129", "::ffff:192.168.1.1", "1.2.3.4"]),
+                  ("::", ["::1", "2001:db8::1", "10.1.2.3"]), ("0.0.0.0", ["10.1.2.3", "255.255.255.255"])]
+        self.altentries = []
+        for base, probes in abases:
+            for suf in suffixes:
+                e = base + "/" + suf
+                self.altentries.append((e, probes[0]))
+                for cl in (probes if not q else [probes[0]] + rng.sample(probes[1:], min(2, len(probes) - 1))):
+                    yield self.mk("contains", "other-notation", entries=[e], client=cl, ref=ref_member([e], cl))
+                yield self.mk("contains", "other-notation", entries=["172.16.0.0/12", e, "bogus"], client=probes[1],
+                              **{"raise": rng.random() < 0.3}, ref=ref_member(["172.16.0.0/12", e, "bogus"], probes[1]))
+            for alt in (base + "-" + base.replace("0", "255", 1), base.rsplit(".", 1)[0] + ".*" if "." in base else base + "*",
+                        base + "/24," + base + "/8", base + " /24", base + "/ 24", base + "\\24", base + "|24",
+                        base + " 255.255.255.0", base + "%24", "[" + base + "]/24", base + "/24#x"):
+                yield self.mk("contains", "other-notation", entries=[alt], client=probes[0], ref=ref_member([alt], probes[0]))
+        # ---------------- legal inputs at and beyond natural limits ----------------
+        # long collections (the match last / absent), masks with many leading zeros (int() stops at 4300 digits),
+        # longest textual forms of entries and clients, upper-case hex
+        for n in (255, 256, 1000, 4096) if not q else (256, 1000):
+            filler = ["10.%d.%d.0/24" % (i // 256 % 256, i % 256) for i in range(n)]
+            for tail, cl in ((["192.168.77.0/24"], "192.168.77.129"), ([], "192.168.77.129"), (["2001:db8::/32"], "2001:db8::9")):
+                ents = filler + tail
+                yield self.mk("contains", "limits", entries=ents, client=cl, ref=ref_member(ents, cl))
+        for nz in (1, 3, 254, 255, 256, 1000, 4297, 4298, 4299):
+            e = "192.168.77.0/" + "0" * nz + "24"
+            yield self.mk("contains", "limits", entries=[e], client="192.168.77.129",
+                          ref=(True if nz + 2 <= 4300 else False))
+        longest = ["ffff:ffff:ffff:ffff:ffff:ffff:255.255.255.255", "FFFF:FFFF:FFFF:FFFF:FFFF:FFFF:FFFF:FFFF",
+                   "0000:0000:0000:0000:0000:ffff:192.168.077.129", "0000:0000:0000:0000:0000:FFFF:C0A8:4D81",
+                   "0000:0000:0000:0000:0000:ffff:192.168.77.129", "2001:0DB8:0000:0000:0000:0000:0000:0001"]
+        for a in longest:
+            for b in longest + ["192.168.77.129", "2001:db8::1", "255.255.255.255"]:
+                yield self.mk("contains", "limits", entries=[a + "/128", a], client=b, ref=ref_member([a + "/128", a], b))
+                yield self.mk("contains", "limits", entries=[b], client=a, ref=ref_member([b], a))
         # ---------------- non-ASCII digits in every numeric position ----------------
         # entries that str.isdigit()/int() would read as a covering subnet, paired with clients inside it
         ubases = [("192.168.77.0/24", ["192.168.77.129", "::ffff:192.168.77.129"]),
@@ -531,6 +593,37 @@ class C05(Check):
                         c = self.mk(kind, "fs-nolookup", key=False, entries=lst, lookup=False, fs=fs, client=member_cl)
                         c["ref"] = self.handler_ref(c)
                         yield c
+        # other notations after the slash, in client_address_list and under the key
+        asel = self.altentries if not q else rng.sample(self.altentries, 80)
+        for (v, cl) in asel:
+            for kind in ("http", "tftp", "update"):
+                for (key, lst, g) in ((False, [v], ("missing", {})), (True, [], ("val", v)),
+                                      (True, ["172.16.0.0/12"], ("val", ("bogus", v)))):
+                    c = self.mk(kind, "other-notation", key=key, entries=lst, getd=g, client=cl,
+                                nores=rng.choice(["not_found", "continue"]), action=rng.choice(ACTIONS))
+                    c["ref"] = self.handler_ref(c)
+                    yield c
+        # legal configurations with unusual-but-valid values: the allowed list as tuple / frozenset / dict / iterator,
+        # the address key one level or 17 levels deep or through a list index, long / odd system ids, long lists
+        deep = ":".join("k%d" % i for i in range(17))
+        many = ["10.%d.%d.0/24" % (i // 256, i % 256) for i in range(300)]
+        for kind in ("http", "tftp", "update"):
+            for client in (member_cl, other_cl, "::ffff:192.168.77.129"):
+                for container in CONTAINERS:
+                    c = self.mk(kind, "limits", key=False, entries=["10.0.0.0/8", "192.168.77.128/25"], client=client,
+                                container=container)
+                    c["ref"] = self.handler_ref(c)
+                    yield c
+                for keypath in ("ip", deep, "net:0:ip", "net:3:ip", "a b:c.d", "net:ip:", "ключ:ip", "0"):
+                    for g in (("val", "192.168.77.0/24"), ("val", many + ["192.168.77.129"]), ("val", frozenset(["192.168.77.129"]))):
+                        c = self.mk(kind, "limits", key=True, entries=[], getd=g, client=client, keypath=keypath)
+                        c["ref"] = self.handler_ref(c)
+                        yield c
+                for sysname in ("a" * 255, "a" * 256, "b" * 4096, "sys with space", "sys/with/slash", "sÿs-ünï", "0", " ", "%41"):
+                    c = self.mk(kind, "limits", key=True, entries=many, getd=("val", ["192.168.77.129"]), client=client,
+                                sysid=sysname, usys=sysname)
+                    c["ref"] = self.handler_ref(c)
+                    yield c
         # non-ASCII digits in client_address_list and under the key
         usel = self.uentries if not q else rng.sample(self.uentries, min(60, len(self.uentries)))
         for (v, cl) in usel:
@@ -613,7 +706,7 @@ class C05(Check):
                 v = g[1]
                 if isinstance(v, str):
                     ents.append(v)
-                elif isinstance(v, (list, tuple, set, dict)):
+                elif isinstance(v, (list, tuple, set, frozenset, dict)):
                     if any(not isinstance(e, str) for e in v):
                         return None
                     ents.extend(v)
@@ -645,10 +738,11 @@ class C05(Check):
         if c["kind"] == "hist":
             return self.run_history(w, c)
         ds = DS(c["find"], c["getd"], c["sysid"])
+        ds.keypath = c.get("keypath", "net:ip")
         if c["kind"] == "update":
             h = self.make_update(w, c, ds)
             try:
-                return self.update_request(w, h, c, c["client"], "sys1", c["method"], c["bad_body"])
+                return self.update_request(w, h, c, c["client"], c.get("usys", "sys1"), c["method"], c["bad_body"])
             finally:
                 h.close()
         made = self.make_file(w, c, ds)
@@ -691,9 +785,9 @@ class C05(Check):
         if c["lookup"]:
             cfg["lookup_key"] = ":system_id:" if c["direct"] else "net:mac"
         if c["key"]:
-            cfg["client_address_key"] = "net:ip"
+            cfg["client_address_key"] = c.get("keypath", "net:ip")
         if c["entries"]:
-            cfg["client_address_list"] = list(c["entries"])
+            cfg["client_address_list"] = CONTAINERS[c.get("container", "list")](c["entries"])
         return cfg
 
     def make_file(self, w, c, ds, kind=None):
@@ -751,9 +845,9 @@ class C05(Check):
         if action == "set_value":
             cfg["value"] = f"v{w.counter}"
         if c["key"]:
-            cfg["client_address_key"] = "net:ip"
+            cfg["client_address_key"] = c.get("keypath", "net:ip")
         if c["entries"]:
-            cfg["client_address_list"] = list(c["entries"])
+            cfg["client_address_list"] = CONTAINERS[c.get("container", "list")](c["entries"])
         h = U.HttpSQLiteUpdateRequestHandler(cfg)
         h.set_data_source(ds)
         if c["store_fault"]:
@@ -761,7 +855,7 @@ class C05(Check):
         return h
 
     def update_request(self, w, h, c, client, system, method=None, bad_body=False):
-        uri = "/u/" + system
+        uri = "/u/" + urllib.parse.quote(system, safe="/")
         ctx = h.prepare_context(uri)
         assert h.can_handle(uri, ctx)
         # put a fresh value in place so that EVERY action, when applied, changes the database
@@ -799,7 +893,7 @@ class C05(Check):
             v = g[1]
             if isinstance(v, str):
                 strs.append(v)
-            elif isinstance(v, (list, tuple, set, dict)):
+            elif isinstance(v, (list, tuple, set, frozenset, dict)):
                 strs.extend(e for e in v if isinstance(e, str))
         t4, t6 = tables(strs)
         ref = [] if c["ref"] is None else [1 if c["ref"] else 0]
